@@ -129,6 +129,16 @@ MUTANTS = [
     ("c06_rot_divides_by_n", ["C06"], "bt/algos.py", "                dlt = (self._weights[cname] - curr) / self._days_left", "                dlt = (self._weights[cname] - curr) / self.n"),
     ("c06_rot_never_disarms", ["C06"], "bt/algos.py", "            if self._days_left == 0:\n                self._days_left = None\n                self._weights = None", "            if self._days_left == 0:\n                self._days_left = 1"),
     ("c06_close_leaves_short", ["C06"], "bt/core.py", "            if c.value != 0.0 and not np.isnan(c.value):\n                c.allocate(-c.value, update=update)", "            if c.value > 0.0 and not np.isnan(c.value):\n                c.allocate(-c.value, update=update)"),
+    # ---- C17
+    ("c17_coupon_on_abs_position", ["C17", "C02"], "bt/core.py", "            self._coupon = self._position * coupon\n", "            self._coupon = abs(self._position) * coupon\n"),
+    ("c17_short_cost_uses_long_table", ["C17"], "bt/core.py", "        elif self._position < 0 and self._cost_short is not None:\n            cost = self._cost_short.values[inow]", "        elif self._position < 0 and self._cost_long is not None:\n            cost = self._cost_long.values[inow]"),
+    ("c17_notional_signed_sum", ["C17"], "bt/core.py", "                notl_val += abs(c.notional_value)", "                notl_val += c.notional_value"),
+    ("c17_hedge_counts_notional", ["C17"], "bt/core.py", "        super(HedgeSecurity, self).update(date, data, inow)\n        self._notl_value = 0.0", "        super(HedgeSecurity, self).update(date, data, inow)\n        self._notl_value = self._value * 0.5"),
+    ("c17_index_multiplicative", ["C17"], "bt/core.py", "                self._price = self._last_price + ret\n", "                self._price = self._last_price * (1 + ret / PAR)\n"),
+    ("c17_index_uses_current_notional", ["C17"], "bt/core.py", "                if not is_zero(self._last_notl_value):\n                    ret = pnl / self._last_notl_value * PAR", "                if not is_zero(self._notl_value):\n                    ret = pnl / self._notl_value * PAR"),
+    ("c17_rebalance_fi_ignores_base", ["C17"], "bt/core.py", "            if c.fixed_income:\n                delta = weight * base - c.weight * self.notional_value\n                c.transact(delta, update=update)", "            if c.fixed_income:\n                delta = weight * self.notional_value - c.weight * self.notional_value if self.notional_value else weight * base\n                c.transact(delta, update=update)"),
+    ("c17_renorm_ignores_flows", ["C17"], "bt/backtest.py", "        returns = s.values.diff() - s.flows", "        returns = s.values.diff()"),
+    ("c17_fisec_flag_dropped", ["C17"], "bt/core.py", "        self._fixed_income = True\n\n    @cy.locals(coupon=cy.double)", "        self._fixed_income = False\n\n    @cy.locals(coupon=cy.double)"),
     # ---- C08
     ("c08_fee_reset_every_update", ["C08", "C07"], "bt/core.py", "        # update now\n        self.now = date\n        if inow is None:\n            if self.now == 0:\n                inow = 0\n            else:\n                inow = self.data.index.get_loc(date)\n\n        # update children if any and calculate value", "        # update now\n        self.now = date\n        self._last_fee = 0.0\n        if inow is None:\n            if self.now == 0:\n                inow = 0\n            else:\n                inow = self.data.index.get_loc(date)\n\n        # update children if any and calculate value"),
     ("c08_outlay_row_accumulates", ["C08", "C07"], "bt/core.py", "            self._outlays.array[inow] += self._outlay\n            # reset outlay back to 0\n            self._outlay = 0\n", "            self._outlays.array[inow] += self._outlay\n"),
